@@ -42,6 +42,8 @@ struct Scenario {
     jitter_ns: u64,
     fault: Fault,
     seed: u64,
+    /// path trace option (and TLV forwarding through the daemon's forwarder) on every node
+    path_trace: bool,
 }
 
 fn ident(i: usize) -> [u8; 8] {
@@ -173,7 +175,7 @@ fn gen_scenario(t: &mut Tape, max_nodes: usize) -> Scenario {
             }
         }
     };
-    Scenario { ann_log: t.range(-2, 1) as i8, receipt_timeout: *t.pick(&[3u8, 2, 4]), nodes, segments, delay_ns: t.urange(1_000, 400_000), jitter_ns: t.below(20_000), fault, seed: t.below(1 << 30) }
+    Scenario { ann_log: t.range(-2, 1) as i8, receipt_timeout: *t.pick(&[3u8, 2, 4]), nodes, segments, delay_ns: t.urange(1_000, 400_000), jitter_ns: t.below(20_000), fault, seed: t.below(1 << 30), path_trace: t.chance(1, 3) }
 }
 
 #[derive(PartialEq, Eq, PartialOrd, Ord)]
@@ -215,6 +217,8 @@ impl Sim {
             cfg.variance = s.var;
             cfg.slave_only = s.slave_only;
             cfg.filter = FilterKind::Rec;
+            cfg.path_trace = sc.path_trace;
+            cfg.prov = if sc.path_trace { ProvKind::Daemon } else { ProvKind::None };
             cfg.rng_seed = sc.seed + i as u64;
             cfg.ports = (0..s.nports)
                 .map(|_| {
@@ -591,7 +595,9 @@ fn phase(sim: &mut Sim, what: &str, out: &mut CaseOut, rendered: &serde_json::Va
     let d = sim.diameter();
     let mult: u64 = std::env::var("VERIF_C01_BOUND_MULT").ok().and_then(|x| x.parse().ok()).unwrap_or(1);
     let mut t_conv = mult * (2 * sim.sc.receipt_timeout as u64 + 4 + 3) * (d + 2) * sim.interval;
-    if what.contains("fault") && sim.has_cycle() {
+    // with the path trace option on every node the loop is broken by discarding looping Announces,
+    // so the normal bound applies even in cyclic topologies
+    if what.contains("fault") && sim.has_cycle() && !sim.sc.path_trace {
         // IEEE 1588 without path trace: after the grandmaster is lost, its stale data set keeps circulating in a
         // cycle of boundary clocks with stepsRemoved growing by the cycle length per round until it reaches 255
         // ("count to infinity"). Each hop costs up to one announce interval plus one BMCA period, so the bound
@@ -648,7 +654,7 @@ pub fn case_with(t: &mut Tape, max_nodes: usize) -> CaseOut {
     let sc = gen_scenario(t, max_nodes);
     let rendered = json!({"announce_log": sc.ann_log, "receipt_timeout": sc.receipt_timeout, "delay_ns": sc.delay_ns, "jitter_ns": sc.jitter_ns,
         "nodes": sc.nodes.iter().map(|n| format!("p1={} class={} acc={:x} var={:x} p2={} slave_only={} ports={} phase={}", n.p1, n.class, n.acc, n.var, n.p2, n.slave_only, n.nports, n.bmca_phase_pm)).collect::<Vec<_>>(),
-        "segments": format!("{:?}", sc.segments), "fault": format!("{:?}", sc.fault)});
+        "segments": format!("{:?}", sc.segments), "fault": format!("{:?}", sc.fault), "path_trace": sc.path_trace});
     out.render = rendered.clone();
     let n = sc.nodes.len();
     let shared = sc.segments.iter().any(|s| s.len() > 2);
@@ -719,6 +725,9 @@ pub fn case_with(t: &mut Tape, max_nodes: usize) -> CaseOut {
     if shared {
         out.label("has-shared-segment");
     }
+    if sim.sc.path_trace {
+        out.label("path-trace-on");
+    }
     if same_inst {
         out.label("same-instance-segment");
     }
@@ -747,7 +756,7 @@ pub fn run(ctx: &Ctx) -> i32 {
         Finish {
             ctx,
             level: "exploration",
-            rule: "networks of 2-4 (thorough 2-7) real PtpInstances with 1-3 ports on segments (point-to-point links, shared segments of up to 4 endpoints, rings, two ports of one instance on one segment), built constructively so that they are connected; per node priority1/clockClass (6,7,127,128,248,255)/accuracy/variance/priority2 from small domains, distinct identities, slave-only on some nodes; one announce interval per network (log -2..1), receipt timeout 2..4; per delivery a delay of 1..400 us plus jitter up to 20 us; per node a BMCA phase; event ties broken by a generated seed; after convergence one fault (cut one endpoint, cut and restore, silence a node, change a node's quality, toggle slave-only). Predicates G/T/S of DESIGN.md C01 evaluated every half interval until they hold (bound (2*timeout+7)*(D+2) announce intervals) and then at every BMCA of every node over 12 intervals together with constancy of all port states and data sets (no flap). Non-trivial = >= 3 instances and (a boundary clock or a shared segment); distinct by scenario.",
+            rule: "networks of 2-4 (thorough 2-7) real PtpInstances with 1-3 ports on segments (point-to-point links, shared segments of up to 4 endpoints, rings, two ports of one instance on one segment), built constructively so that they are connected; per node priority1/clockClass (6,7,127,128,248,255)/accuracy/variance/priority2 from small domains, distinct identities, slave-only on some nodes; one announce interval per network (log -2..1), receipt timeout 2..4; path trace + TLV forwarding on all nodes in a third of the networks; per delivery a delay of 1..400 us plus jitter up to 20 us; per node a BMCA phase; event ties broken by a generated seed; after convergence one fault (cut one endpoint, cut and restore, silence a node, change a node's quality, toggle slave-only). Predicates G/T/S of DESIGN.md C01 evaluated every half interval until they hold (bound (2*timeout+7)*(D+2) announce intervals) and then at every BMCA of every node over 12 intervals together with constancy of all port states and data sets (no flap). Non-trivial = >= 3 instances and (a boundary clock or a shared segment); distinct by scenario.",
             assumptions: vec!["servo irrelevant here: recording filter, ideal clocks".into(), "master_only ports are left to C08".into(), "liveness checked as bounded-horizon safety".into()],
             min_nontrivial: 50,
         },
